@@ -27,6 +27,7 @@ from harness.translate import status as tr
 THEOREMS = [
     "oneActive_step", "no_two_running_partial", "different_keys_independent", "full_statement_refuted",
     "two_pollers_break_it", "blocked_outcome", "blocked_retry_raises", "poll_raises_on_blocked_retry",
+    "pollB_nil", "awaited_same_key_claimed_once",
 ]
 
 CONFIGS = [
@@ -155,13 +156,16 @@ class World:
     def poll(self, n: int, runner: str) -> list:
         before = self.statuses()
         qbefore = self.queue()
+        # what the wait graph reports as blocking (C09 decides WHICH ids these are; here they are the first candidates of the poll)
+        bs = [i for i in self.o.get_blocking_invocations(n)]
+        self.nblocking = getattr(self, "nblocking", 0) + len(bs)
         try:
             got = list(self.o.get_invocations_to_run(n, rctx(runner)))
             impl = "ok " + (" ".join(tok(i.invocation_id) for i in got) or "[]")
         except BaseException as e:  # noqa: BLE001
             got = []
             impl = f"raised:{type(e).__name__}"
-        m = self.drv.ask(f"cc.poll {n} {tok(runner)} {self.clock.us}")
+        m = self.drv.ask(f"cc.pollb {n} {tok(runner)} {self.clock.us}" + "".join(" " + tok(i) for i in bs))
         if impl.split(":")[0].split()[0] != m.split()[0] or (impl.startswith("ok") and impl != m):
             self.mismatch("poll", impl, m)
         after = self.statuses()
@@ -175,7 +179,7 @@ class World:
         if impl.startswith("ok") and self.mode != "disabled":
             held = {self.runkey(self.invs[i]["args"]) for i, st in before.items() if st in ("pending", "running")}
             need = n
-            for i in qbefore:
+            for i in bs + [q for q in qbefore if q not in bs]:
                 if need <= 0:
                     break
                 if i not in before or before[i] not in ("registered", "rerouted", "retry") or after[i] == before[i] and i in [g.invocation_id for g in got]:
@@ -263,6 +267,12 @@ def scenario_random(w: World, nsteps: int) -> None:
             same = draw_args(rng)
             w.submit_batch([dict(same) if rng.random() < 0.6 else draw_args(rng) for _ in range(rng.randint(2, 3))])
             w.check_statuses("batch submission")
+        elif r < 0.50 and running:
+            # a running invocation declares that it waits for some of the open ones: they become the FIRST candidates of the next polls
+            st = w.statuses()
+            open_ = [i for i, v in st.items() if v in ("registered", "rerouted", "retry")]
+            if open_:
+                w.o.waiting_for_results(rng.choice(list(running)), rng.sample(open_, min(len(open_), rng.randint(1, 3))))
         elif r < 0.65:
             got = w.poll(rng.randint(1, 3), "rA")
             claimed += got
@@ -475,6 +485,7 @@ def run(ctx: Ctx) -> None:
                 finally:
                     w.close()
                 nd += w.nd
+                ctx.notes["blocking_candidates_in_polls"] = ctx.notes.get("blocking_candidates_in_polls", 0) + getattr(w, "nblocking", 0)
                 if mode != "disabled":
                     w2 = World(ctx, kind, ci, mode, keys, rer, drv, clock)
                     try:
